@@ -783,6 +783,28 @@ EML_LISTS = {"to_emails": "to", "to_cc": "cc", "to_bcc": "bcc", "reply_to": "rep
 LIB_SITES = ("mailparser.parse_from_bytes", "base64.b64decode")
 
 
+def walked_length(seq):
+    """The length term that identifies the sequence a loop walks: of the sequence itself (`for a in mail.attachments`), or of the
+    sequence whose indices 0 .. len-1 are walked in order (`for i in range(len(mail.attachments))`, recognised by its shape:
+    length If(n < 0, 0, n) and element k == k).  None: not recognised."""
+    if not isinstance(seq, VSeq):
+        return None
+    t = seq.length
+    try:
+        if z3.is_app(t) and t.decl().kind() == z3.Z3_OP_ITE:
+            c, a, b = t.children()
+            if z3.is_int_value(a) and a.as_long() == 0 and z3.is_app(b) and b.decl().kind() == z3.Z3_OP_UNINTERPRETED \
+                    and c.eq(b < 0):
+                k = z3.Int("k!wl")
+                e = seq.elem(k)
+                if isinstance(e, VInt) and z3.simplify(e.t - k).eq(z3.IntVal(0)):
+                    return b
+            return None
+    except Exception:  # noqa
+        return None
+    return t
+
+
 def eml_contract():
     def mail_of(c):
         return M.MAILOF(M.bytes_term(c.args["payload"]))
@@ -842,7 +864,7 @@ def eml_contract():
         """One invariant for every loop of the body, by what the loop walks: over mail.attachments the list built so far is the
         specified attachments prefix; over an address list of the mail it is the specified recipients prefix; other loops: True."""
         mail = M.MAILOF(M.bytes_term(lc.entry.lookup("payload")))
-        t = lc.seq.length if isinstance(lc.seq, VSeq) else None
+        t = walked_length(lc.seq)
         what = t.decl().name() if t is not None and z3.is_app(t) else ""
         i = lc.i
         if what == "mail_attachments_n":
@@ -857,6 +879,11 @@ def eml_contract():
                 return z3.And(M.UNFOLD(nm) == M.UNFOLD(M.ML_NAME(mail, f, k)), ad == M.ML_ADDR(mail, f, k))
             return Conj([("count", n == i), ("items", forall(i, body, "k!ai")),
                          ("unfolded", forall(i, lambda k: addr_fields(lc.st, el(k))[0] == M.UNFOLD(M.ML_NAME(mail, f, k)), "k!au"))])
+        nodes = getattr(lc.ex, "_loop_nodes", [])
+        if nodes and M._appended_in(nodes[-1]):
+            # a loop that builds a list while walking something this invariant does not recognise (a slice, a filtered or
+            # re-ordered view, a counter with another start ...): nothing can be said about the list, which is not `True`
+            raise M.ShapeUnknown("loop builds a list while walking a sequence this invariant does not recognise")
         return Conj([])
 
     def lib_only(c):
